@@ -77,6 +77,7 @@ def seg_intersect(p1, p2, p3, p4):
     d1, d2, d3, d4 = orient(p3, p4, p1), orient(p3, p4, p2), orient(p1, p2, p3), orient(p1, p2, p4)
     return d1 * d2 < 0 and d3 * d4 < 0
 
+@common.guarded(lambda **a: f"boundary ring of cell {hex(a['c'])} (closed_ring={a['cl']}, segments={a['sg']})", lambda **a: {'cell': a['c'], 'closed': a['cl'], 'seg': a['sg']})
 def check_ring(drv, c, cl, sg, fails, base=None):
     a5 = drv.a5
     opts = options(cl, sg)
